@@ -193,10 +193,13 @@ def Stream.graphTriples (exc : PyErr) (s : Stream) : List (List Term) → List F
 /-- `GraphStream.graph` consumed to exhaustion (frames yielded before an exception are kept). -/
 def Stream.graph (exc : PyErr) (s : Stream) (graphId : Term) (triples : List (List Term)) :
     Stream × List Frame × Option PyErr :=
-  match s.enc.te.startRow.graph graphId with
+  match s.enc.te.beginRow with
+  | .error e => (s, [], some e)
+  | .ok te0 =>
+  match te0.graph graphId with
   | (te', .error e) => ({ s with enc := { s.enc with te := te' } }, [], some e)
   | (te', .ok (rows, w)) =>
-    let s1 := ({ s with enc := { s.enc with te := te' } } : Stream).pushRows (rows ++ [Row.graphStart (some w)])
+    let s1 := ({ s with enc := { s.enc with te := te'.endRow } } : Stream).pushRows (rows ++ [Row.graphStart (some w)])
     match Stream.graphTriples exc s1 triples [] with
     | (s2, frames, some e) => (s2, frames, some e)
     | (s2, frames, none) =>
